@@ -2,6 +2,7 @@ package harness
 
 import (
 	"runtime"
+	"sync"
 )
 
 // Kernel is the seeded cooperative scheduler of engine E2 (and, with
@@ -54,6 +55,12 @@ type Kernel struct {
 	// probes
 	lockWaits   int
 	holdsForced int
+	adopted     int // goroutines started by the code under test that became tasks
+
+	// adoptSpawned: goroutines the code under test starts on its own become
+	// tasks at their first schedule point
+	adoptSpawned bool
+	adoptMu      sync.Mutex
 
 	// whether the task is between the library's "cmd.admitted" and "cmd.done"
 	// hook points (a command is being handled)
@@ -73,7 +80,7 @@ const (
 // NewKernel must be called inside the synctest bubble (its channels belong to
 // the bubble).
 func NewKernel(enabled bool) *Kernel {
-	k := &Kernel{enabled: enabled, trace: 14695981039346656037, maxSteps: 20000}
+	k := &Kernel{enabled: enabled, adoptSpawned: enabled, trace: 14695981039346656037, maxSteps: 20000}
 	for i := range k.wake {
 		k.wake[i] = make(chan struct{})
 	}
@@ -188,6 +195,35 @@ func (k *Kernel) Yield(task int, point string) {
 	k.park(task, point)
 }
 
+// adopt makes a goroutine that the code under test started on its own (a
+// timer callback, a background flusher, a watcher, a helper goroutine of a
+// handshake) a task of the scheduler at its first schedule point: from then on
+// it runs only when the scheduler picks it, like every other task. Returns -1
+// when the task table is full (the goroutine then runs unscheduled, as all
+// such goroutines did before).
+//
+//go:norace
+func (k *Kernel) adopt(id uint64) int {
+	raceDisable()
+	defer raceEnable()
+	k.adoptMu.Lock()
+	defer k.adoptMu.Unlock()
+	for t := 0; t < k.ntasks; t++ {
+		if k.goid[t] == id {
+			return t
+		}
+	}
+	if k.ntasks >= maxTasks {
+		return -1
+	}
+	t := k.ntasks
+	k.name[t] = "spawned"
+	k.goid[t] = id
+	k.adopted++
+	k.ntasks = t + 1
+	return t
+}
+
 // StartTask binds the calling goroutine to a task that has no goroutine yet
 // and parks it at point - unless the caller already is some task (the accept
 // loop asking for a connection's address, say).
@@ -226,6 +262,11 @@ func (k *Kernel) YieldHook(point string) {
 			}
 			k.park(t, point)
 			return
+		}
+	}
+	if k.adoptSpawned {
+		if t := k.adopt(id); t >= 0 {
+			k.park(t, point)
 		}
 	}
 }
@@ -299,6 +340,9 @@ func (k *Kernel) LockHook(try func() bool, lock func(), point string) {
 			task = t
 			break
 		}
+	}
+	if task < 0 && k.adoptSpawned {
+		task = k.adopt(id)
 	}
 	if task < 0 {
 		lock()
